@@ -168,6 +168,14 @@ def segments(ctx: Ctx, q, e, san=frozenset(), depth=0, quoters=frozenset()):
             return segments(ctx, q, e.args[0], san, depth + 1, quoters)
         if isinstance(e.func, ast.Name) and name not in quoters:
             r = ctx.p.resolve_name(fi.module, e.func.id)
+            # a nested helper defined in this function or an enclosing one
+            cur = q
+            while cur:
+                cand = "%s.<locals>.%s" % (cur, e.func.id)
+                if cand in ctx.p.functions:
+                    r = ("func", cand)
+                    break
+                cur = ctx.p.functions[cur].parent
             if r and r[0] == "func" and ctx.p.functions[r[1]].module == fi.module and depth < 10:
                 hf = ctx.fn(r[1])
                 rets = [n for n in walk_function(hf.node) if isinstance(n, ast.Return) and n.value is not None and not (isinstance(n.value, ast.Constant) and n.value.value is None)]
@@ -175,6 +183,30 @@ def segments(ctx: Ctx, q, e, san=frozenset(), depth=0, quoters=frozenset()):
                     alts = tuple(segments(ctx, r[1], n.value, san, depth + 1, quoters) for n in rets)
                     return list(alts[0]) if len(alts) == 1 else [Seg("alt", expr=e, san=san, text=alts)]
         return [Seg("dyn", expr=e, san=san)]
+    if isinstance(e, ast.Name) and e.id in fi.params and fi.parent and not all_assignments(fi.node, e.id) and depth < 10:
+        # a parameter of a nested helper, never rebound: what reaches it is what its call sites pass (each in its caller's context)
+        k = fi.params.index(e.id)
+        sites = []
+        for cq, cf in ctx.p.functions.items():
+            if cf.module != fi.module or isinstance(cf.node, ast.Lambda):
+                continue
+            for c in calls_in(cf.node):
+                if isinstance(c.func, ast.Name) and c.func.id == fi.name and not any(isinstance(a, ast.Starred) for a in c.args):
+                    # the name must resolve to this very function from the call site (nearest enclosing definition)
+                    cur, hit = cq, None
+                    while cur and hit is None:
+                        cand = "%s.<locals>.%s" % (cur, fi.name)
+                        if cand in ctx.p.functions:
+                            hit = cand
+                        cur = ctx.p.functions[cur].parent
+                    if hit != q:
+                        continue
+                    a = c.args[k] if k < len(c.args) else next((kw.value for kw in c.keywords if kw.arg == e.id), None)
+                    if a is not None:
+                        sites.append((cq, a))
+        if sites:
+            alts = tuple(segments(ctx, cq, a, san, depth + 1, quoters) for cq, a in sites)
+            return list(alts[0]) if len(alts) == 1 else [Seg("alt", expr=e, san=san, text=alts)]
     if isinstance(e, ast.Name):
         defs = [d for d in all_assignments(fi.node, e.id)]
         if len(defs) == 1 and isinstance(defs[0], (ast.List, ast.Tuple)) and e.id not in fi.params:
